@@ -4,6 +4,7 @@ from collections.abc import Iterable
 from formulaic.utils.code import format_expr, sanitize_variable_names
 
 from ..types.token import Token
+from ..utils import exc_for_token
 
 
 def sanitize_tokens(tokens: Iterable[Token]) -> Iterable[Token]:
@@ -19,7 +20,13 @@ def sanitize_tokens(tokens: Iterable[Token]) -> Iterable[Token]:
         if token.token == ".":  # noqa: S105
             token.kind = Token.Kind.OPERATOR
         if token.kind is Token.Kind.PYTHON:
-            token.token = sanitize_python_code(token.token)
+            try:
+                token.token = sanitize_python_code(token.token)
+            except UnicodeError as e:
+                # Python cannot even decode the fragment (e.g. lone surrogates).
+                raise exc_for_token(
+                    token, f"Python fragment cannot be compiled: {e}"
+                ) from e
         yield token
 
 
